@@ -29,7 +29,8 @@ def sink_unit(H, VERIF, scn, nmax, ring, polls=3, envmax=10, timeout=1500, solve
 
 def start_flags(H, VERIF, which):
     nm = {1: "sink", 2: "source", 3: "filter"}[which]
-    repo = {1: [HAL + "storage.c", HAL + "driver.c", COMP], 2: [HAL + "camera.c", HAL + "driver.c", COMP], 3: [RT + "frame_iterator.c", COMP]}[which]
+    # (vfslice / throttler / frame_iterator are only reached by the thread bodies, which do not run here, but the native replay has to link)
+    repo = {1: [HAL + "storage.c", HAL + "driver.c", COMP, RT + "vfslice.c", RT + "throttler.c"], 2: [HAL + "camera.c", HAL + "driver.c", COMP], 3: [RT + "frame_iterator.c", RT + "throttler.c", COMP]}[which]
     return H("start_flags_%s" % nm, "harness/runtime/start_flags.c", repo=repo, env=ENV_UNIT + ["env/chan_contract.c"],
              defines=["WHICH=%d" % which, "TAPE_BYTES=208", "WRITE_UNIT=104"], cflags=cflags(VERIF), unwind=9, unwindset={"tape_at.0": 12},
              solver="cadical", timeout=600, mem_gb=12,
